@@ -41,7 +41,9 @@ Definition uop_bop (o : uop) : bop :=
   end.
 Definition is_arith (o : uop) : bool := match o with UAdd | USub | UMul | UDiv | UMod => true | _ => false end.
 Definition is_logic (o : uop) : bool := match o with UAnd | UOr => true | _ => false end.
-Definition has_reflected (o : uop) : bool := is_arith o || is_logic o.
+(** PySpark has reflected forms for arithmetic only: `True & col` raises in PySpark (py4j: no and(Boolean)),
+    so sqlframe's __rand__/__ror__ are outside the property *)
+Definition has_reflected (o : uop) : bool := is_arith o.
 Definition all_uop := [UAdd; USub; UMul; UDiv; UMod; UEq; UNeq; ULt; ULe; UGt; UGe; UAnd; UOr].
 
 (** ---- facts regenerated from column.py (tie T1) ---------------------------------------------- *)
